@@ -154,7 +154,24 @@ class Check(PropertyCheck):
     def direct(self):
         if not hasattr(self, "scns"):
             return []
-        return self.direct_on(self.scns, self.reals, 150 if self.tier == "quick" else 1500)
+        return self.direct_on(self.scns, self.reals, 150 if self.tier == "quick" else 1500) + self.findings()
+
+    def findings(self):
+        """Confirmed deviation from the property text, reported with a fixed key when reproduced (known_findings.json)."""
+        self.setup()
+        t1, t2 = 1_234_567_890_123_456_789, 1_111_111_111_000_000_001
+        scn = {"names": {"s": ("L", 10)}, "ops": ["s"], "flags": [], "plan": None,
+               "inodes": {10: {"kind": "r", "mode": 0o4755, "uid": 0, "gid": 0, "atime": t1, "mtime": t2, "data": b"setuid input\n" * 9}}}
+        real = fl.run_real(self.exe, scn, os.path.join(self.scn_dir, "finding_setuid"))
+        after = {e["path"] for e in real["listing"]}
+        if real["outcome"] == "E4" and "s.bz2" in after and "s" not in after and b"skipping" not in real["err"]:
+            return [Violation("c18:exit4-without-skip",
+                              "`chmod 4755 s; lbzip2 s`: s is processed completely (s.bz2 written, s removed, nothing skipped) but the exit status "
+                              "is 4, because output_regf_uninit() warns \"won't restore any of setuid, setgid, sticky\"; any warning sets "
+                              "`warned`, not only skips (C18_exit4_only_if_skipped_refuted)",
+                              {"scenario": fl.scn_brief(scn), "argv": fl.argv_of(scn), "exit": real["outcome"],
+                               "stderr": real["err"].decode("latin-1")[:300]})]
+        return []
 
     def search(self):
         self.setup()
